@@ -398,6 +398,7 @@ func runC03(r *mc.Report, e *Env) {
 		"era_boundary_blocks": c03Fork,
 	})
 	defer debug.SetGCPercent(debug.SetGCPercent(400)) // many short-lived proofs over a small live heap
+	runC03Conc(r, e) // every worker explores its share of the schedules
 	if e.Of <= 1 || e.Shard == e.Of-1 {
 		c03Oracle(r, e)
 		c03DefaultAccumulators(r)
@@ -421,6 +422,9 @@ func runC03(r *mc.Report, e *Env) {
 }
 
 func replayC03(r *mc.Report, e *Env, raw json.RawMessage) {
+	if replayC03Conc(r, raw) {
+		return
+	}
 	var oc c03OracleCase
 	if json.Unmarshal(raw, &oc) == nil && oc.Part == "growing-summaries" {
 		w := c03PostWorld()
